@@ -5,6 +5,7 @@ the corresponding runs on a real TapeRecorder over a spy-wrapped real cassette a
 between what the model prescribes (ev.seen, ev.calls, keys, store contents, recorder public state) and what the
 real code did.
 """
+import copy
 import random
 import re
 import sys
@@ -23,6 +24,27 @@ from .concretise import Concretisation, same_value
 from .values import EXC, ScriptedInterrupt, BadKey, ScriptedError1, ScriptedError2
 
 FALSY = [0, '', [], {}, False, 0.0, ()]
+
+
+def mutate_in_place(v, depth=0):
+    """In-place mutation of the first mutable container reachable from v; returns the number of mutations made."""
+    if depth > 4:
+        return 0
+    if isinstance(v, list):
+        v.append('MUTATED')
+        return 1
+    if isinstance(v, dict):
+        v['MUTATED'] = 'MUTATED'
+        return 1
+    if isinstance(v, set):
+        v.add('MUTATED')
+        return 1
+    if isinstance(v, tuple):
+        return sum(mutate_in_place(x, depth + 1) for x in v)
+    if hasattr(v, '__dict__') and not isinstance(v, (type, BaseException)):
+        v.__dict__['MUTATED'] = 'MUTATED'
+        return 1
+    return 0
 
 
 class SpyCassette(TapeCassette):
@@ -155,13 +177,11 @@ class World(object):
         self.uncaptured = 0
 
     def outcome(self, alias, arg):
+        """A *fresh* object per call (like a read from a database): equal values, distinct identities."""
         t, v = self.tokens[(alias, arg)]
-        if (alias, arg) not in self.objects:
-            if t == 'val':
-                self.objects[(alias, arg)] = self.conc.value(v)
-            else:
-                self.objects[(alias, arg)] = EXC[v]('scripted %s from %s' % (v, alias))
-        return t, self.objects[(alias, arg)]
+        if t == 'val':
+            return t, copy.deepcopy(self.conc.value(v))
+        return t, EXC[v]('scripted %s from %s' % (v, alias))
 
     def arg(self, token):
         return self.conc.value('arg%s' % token)
@@ -200,6 +220,7 @@ def build_class(recorder, ctx, world, cls_params, has_extractor, opt_sets, class
             finally:
                 ctx.in_inner = False
         t, obj = world.outcome(alias, argtoken)
+        entry['produced'] = obj
         if t == 'exc':
             raise obj
         return obj
@@ -326,10 +347,13 @@ def build_class(recorder, ctx, world, cls_params, has_extractor, opt_sets, class
                 else:
                     out = do_step(inst, st)
                 rec_['seen'] = out
+                rec_['token'] = ctx.project(out, st)
             except (ScriptedError1, ScriptedError2) as ex:
                 rec_['seen'] = ('exc', ex)
+                rec_['token'] = ctx.project(rec_['seen'], st)
             except BaseException as ex:
                 rec_['seen'] = ('abort', ex)
+                rec_['token'] = ctx.project(rec_['seen'], st)
                 rec_['bodies'] = list(ctx.body_log)
                 rec_['out_objects'] = list(ctx.out_objects)
                 if ctx.observe:
@@ -401,6 +425,20 @@ def build_class(recorder, ctx, world, cls_params, has_extractor, opt_sets, class
             return ('none', None)
         if k == 'playdata':
             return ('val', tr.play_data('k1'))
+        if k == 'mutate':
+            # mutate, in place, everything the program got from / handed to intercepted calls so far in this run
+            n = 0
+            for prev in ctx.journal:
+                seen = prev.get('seen')
+                if seen and seen[0] == 'val':
+                    n += mutate_in_place(seen[1])
+            # sent payloads are only mutated while recording with copy-on-interception (during a replay nothing copies
+            # what the code sends, and the properties assume it is not mutated after capture)
+            if not ctx.replaying:
+                for prev_st in ctx.steps:
+                    if '_payload' in prev_st:
+                        n += mutate_in_place(prev_st['_payload'])
+            return ('none', n)
         raise KeyError(k)
 
     if class_level:
@@ -562,9 +600,12 @@ class Driver(object):
         ctx.default_result = ('default-result',)
         ctx.user_data = {'user': ['data', 1]}
         ctx.junk = [('a', 1), 5]
-        ctx.sent_object = lambda v: self.conc.value(v)
-        ctx.result_object = lambda v: self.conc.value(v)
+        ctx.sent_object = lambda v: copy.deepcopy(self.conc.value(v))
+        ctx.result_object = lambda v: copy.deepcopy(self.conc.value(v))
         ctx.fb_as_list = (self.conc_seed % 2 == 0)
+        ctx.replaying = False
+        # what the caller saw is projected onto tokens at the moment it is seen (later steps may mutate the objects)
+        ctx.project = lambda seen, st: (self._replay_seen_token(seen, st) if ctx.replaying else self._seen_token(seen))
         pyclasses = {}
         for name, c in self.classes.items():
             for ext in (False, True):
@@ -580,7 +621,8 @@ class Driver(object):
 
     def run(self, beh):
         out = []
-        self.conc = Concretisation(self.conc_seed, prefer_mutable=(self.conc_seed % 2 == 1))
+        self.conc = Concretisation(self.conc_seed, prefer_mutable=(self.conc_seed % 2 == 1),
+                                   confusable=('arg1', 'arg2') if self.conc_seed % 3 == 2 else ())
         # reserve the special values so that no value token is concretised to something equal to them
         self.conc.map['__subst_value'] = ('substitute', 1)
         self.conc.map['__subst_falsy'] = FALSY[self.conc_seed % len(FALSY)]
@@ -691,6 +733,7 @@ class Driver(object):
             for st in steps:
                 st['th'] = 1 if trnd.random() < 0.3 else 0
         ctx.steps = steps
+        ctx.replaying = False
         ctx.journal = []
         ctx.end = end
         ctx.end_object = None
@@ -742,14 +785,14 @@ class Driver(object):
             e = beh[x]['ev']
             exp_seen = tuple(e['seen'])
             if e['kind'] in ('in', 'out'):
-                got = self._seen_token(jr['seen'])
+                got = jr['token']
                 if got != exp_seen:
                     self._mm(out, 'seen', x, exp_seen, got, 'caller of %s saw something else' % st['alias'])
                 else:
                     # identity: the very object the body produced
                     if e['kind'] == 'in' and exp_seen[0] in ('val', 'exc'):
-                        t, obj = self.world.outcome(st['alias'], st['arg'])
-                        if jr['seen'][1] is not obj:
+                        produced = [b.get('produced') for b in jr['bodies'] if b['alias'] == st['alias'] and not b.get('inner')]
+                        if not produced or jr['seen'][1] is not produced[-1]:
                             self._mm(out, 'seen', x, 'same object', 'different object (id)', 'identity of input result')
                     if e['kind'] == 'out' and exp_seen[0] in ('val', 'exc'):
                         objs = jr.get('out_objects') or [None]
@@ -781,7 +824,7 @@ class Driver(object):
                         self._mm(out, 'keys', x, sorted(mkeys), sorted(tokens, key=repr), 'keys in the active recording')
                     prev_keys = set(obs['keys'])
                     prev_model_keys = mkeys
-        obs['steps'] = [self._seen_token(jr['seen']) for jr in ctx.journal]
+        obs['steps'] = [jr['token'] for jr in ctx.journal]
         obs['bodies'] = [sorted((b['alias'], b.get('inner', False)) for b in jr['bodies']) for jr in ctx.journal]
         obs['op'] = (seen_op[0], self._seen_token(('val', seen_op[1]) if seen_op[0] == 'ret' else
                                                   (('exc', seen_op[1]) if isinstance(seen_op[1], (ScriptedError1, ScriptedError2))
@@ -958,7 +1001,12 @@ class Driver(object):
                     st['res'] = ('val', 'v1')
                 steps.append(st)
                 step_idx.append(x)
+        if self.vary_threads:
+            trnd = random.Random(self.conc_seed * 37 + i0)
+            for st in steps:
+                st['th'] = 1 if trnd.random() < 0.3 else 0
         ctx.steps = steps
+        ctx.replaying = True
         ctx.journal = []
         ctx.end = end if end is not None and end[0] in ('val', 'exc') else ('val', 'v1')
         ctx.end_object = None
@@ -998,7 +1046,7 @@ class Driver(object):
             e = beh[x]['ev']
             exp_seen = tuple(e['seen'])
             if e['kind'] in ('pin', 'pout'):
-                got = self._replay_seen_token(jr['seen'], st)
+                got = jr['token']
                 if got != exp_seen:
                     self._mm(out, 'pseen', x, exp_seen, got, 'replayed call of %s(%s) answered differently'
                              % (st['alias'], st.get('arg')))
@@ -1013,7 +1061,7 @@ class Driver(object):
                     if not (got[0] == 'val' and same_value(got[1], ctx.user_data)):
                         self._mm(out, 'pseen', x, exp_seen, repr(got)[:100], 'play_data')
         obs['play'] = ('ok', 'Playback') if seen[0] == 'ok' else self._seen_token(('abort', seen[1]))
-        obs['steps'] = [self._replay_seen_token(jr['seen'], st) for jr, st in zip(ctx.journal, steps)]
+        obs['steps'] = [jr['token'] for jr in ctx.journal]
         obs['bodies'] = [sorted((b['alias'], b.get('inner', False)) for b in jr['bodies']) for jr in ctx.journal]
         # cassette untouched
         got_calls = [c[0] for c in self.spy.log[log0:]]
